@@ -3,6 +3,7 @@
 //!   stunharness exec                                    stdin case lines -> `line => observation`
 //!   stunharness run  <family> <seed> <count> <tier>     gen | exec
 mod fam_attr;
+mod fam_bld;
 mod fam_msg;
 mod fam_mtype;
 mod fam_tcp;
@@ -21,6 +22,7 @@ fn exec_line(lhs: &str) -> String {
             "tcp" => fam_tcp::exec(&kv),
             "mtype" => fam_mtype::exec(&kv),
             "attr" => fam_attr::exec(&kv),
+            "bld" => fam_bld::exec(&kv),
             "msg" => fam_msg::exec(&kv),
             "xor" => fam_xor::exec(&kv),
             _ => format!("unknown-family {fam}"),
@@ -39,7 +41,8 @@ fn gen(fam: &str, seed: u64, count: usize, thorough: bool, part: u64, parts: u64
         "tcp" => fam_tcp::gen(&mut rng, count, thorough, &mut out),
         "mtype" => fam_mtype::gen(&mut rng, count, thorough, &mut out, part, parts),
         "xor" => fam_xor::gen(&mut rng, count, thorough, &mut out, part, parts),
-        "attr" => fam_attr::gen(&mut rng, count, thorough, &mut out, part, parts),
+        f if f.starts_with("attr.") => fam_attr::gen(f, &mut rng, count, thorough, &mut out, part, parts),
+        f if f.starts_with("bld.") => fam_bld::gen(f, &mut rng, count, thorough, &mut out, part, parts),
         f if f.starts_with("msg.") => fam_msg::gen(f, &mut rng, count, thorough, &mut out, part, parts),
         _ => panic!("unknown family {fam}"),
     }
